@@ -70,7 +70,13 @@ def gen_expr_case(rng):
         keys = [[1, i, j] for i in range(np_) for j in range(np_)] + [[0, k] for k in range(nx_)] + [[2]]
         rng.shuffle(keys)
         keys = keys[:rng.randint(0, min(len(keys), 9))]
-        t = ("XDict", tuple((tuple(k), T.rand_scalar(rng)) for k in keys))
+        def w():
+            # legitimate badly scaled models carry tiny coefficients (gamma**2 for gamma = 1/L, L = 1e4 ...): they
+            # must reach the solver data exactly like any other coefficient
+            if rng.random() < 0.25:
+                return rng.choice([1, -1, 3]) * 2.0 ** -rng.choice([28, 33, 40, 45])
+            return T.rand_scalar(rng)
+        t = ("XDict", tuple((tuple(k), w()) for k in keys))
     else:
         t = T.gen_expr(rng, rng.choice([1, 2, 3, 3, 4]), np_, nx_)
     return np_, nx_, t
